@@ -22,6 +22,19 @@ ADAPTERS = ("iter", "into_iter", "rev", "cloned", "copied", "by_ref", "iter_mut"
 MAP_TYPES = ("HashMap", "BTreeMap", "hash::map", "btree::map", "collections")
 
 
+def okey(t, depth=4):
+    """Bounded-depth ordering key (terms are DAGs: a full repr can be exponentially large)."""
+    if not isinstance(t, tuple):
+        return (0, repr(t))
+    if not t:
+        return (0, "()")
+    head = t[0] if isinstance(t[0], str) else "#"
+    if depth == 0:
+        return (1, head, len(t))
+    rest = t[1:] if isinstance(t[0], str) else t
+    return (0 if head == "lit" else 1, head, tuple(okey(x, depth - 1) for x in rest))
+
+
 def _int(v):
     import terms
     return terms.Int(v)
@@ -265,6 +278,10 @@ class Normalizer:
             name, recv, body = t[1], t[2], t[3]
             if name == "any":
                 return neg(("hof", "all", recv, neg(body), t[4] if len(t) > 4 else ()))
+            if name in ("is_some_and", "is_ok_and"):
+                return self.rewrite(("bin", "&&", self.rewrite(M(recv, "some" if name == "is_some_and" else "ok")), body))
+            if name == "is_none_or":
+                return self.rewrite(("bin", "||", neg(self.rewrite(M(recv, "some"))), body))
             if name in ("unwrap_or_else", "unwrap_or") and not any(y[0] in ("payload",) or (y[0] == "proj" and y[1] == recv) for y in _sub(body)):
                 # x.unwrap_or_else(|| d)  ==  if let Some(v) = x { v } else { d }
                 return self.rewrite(("ite", M(recv, "some"), self.proj(recv, SOME, 0), body))
@@ -362,7 +379,7 @@ class Normalizer:
             return self.rewrite(("ite", t[2][1], self.rewrite(("bin", t[1], t[2][2], t[3])), self.rewrite(("bin", t[1], t[2][3], t[3]))))
         if k == "bin" and t[1] in ("==", "!="):
             a, b = t[2], t[3]
-            if repr(a) > repr(b):
+            if okey(a) > okey(b):
                 return ("bin", t[1], b, a)
             return t
         return t
@@ -487,7 +504,10 @@ class Normalizer:
                         continue
                     out.append(("if", t, pol, c[4] if len(c) > 4 else None))
                 else:
-                    out.append(("match", scrut) + tuple(c[2:]))
+                    c2 = tuple(c[2:])
+                    if len(c) > 7 and c[7]:
+                        c2 = tuple(c[2:7]) + (tuple((d_, self.norm(g_)) for d_, g_ in c[7]),) + tuple(c[8:])
+                    out.append(("match", scrut) + c2)
             else:
                 out.append(c)
         return tuple(out)
